@@ -92,7 +92,7 @@ func c16(r *core.Run) {
 	r.NotDecided = "exactly-once execution and batch order over interleavings of Add/tick/Flush/Wait; the idle-quit timing; behaviour of the execute callbacks; sync.WaitGroup / channel semantics."
 
 	curProg = p
-	funcs := pkgFuncsAll(p, exPkg)
+	funcs := c16Funcs(p, exPkg)
 	if len(funcs) == 0 {
 		r.Check("D0/anchor", "package lib/executors is loaded", func(o *core.O) { o.Unres("package %s not found", exPkg) })
 		return
@@ -105,8 +105,6 @@ func c16(r *core.Run) {
 	isRemoveAll := core.CallMethod("executors.TaskContainer", "RemoveAll")
 	isExecute := core.CallMethod("executors.TaskContainer", "Execute")
 	isWGAdd := core.CallTo("(*sync.WaitGroup).Add")
-	isWGDone := core.CallTo("(*sync.WaitGroup).Done")
-	isWGWait := core.CallTo("(*sync.WaitGroup).Wait")
 	isFlush := core.CallTo("(*lib/executors.PeriodicalExecutor).Flush")
 	const (
 		fGuarded   = "PeriodicalExecutor.guarded"
@@ -142,8 +140,19 @@ func c16(r *core.Run) {
 			return m(in) && core.FieldAddrName(core.AsCall(in).Common().Args[0]) == fWG
 		}
 	}
-	enterFns := roleSet(func(f *ssa.Function) bool { return f.Parent() == nil && hasCall(f, onWG(isWGAdd), true) })
-	doneFns := roleSet(func(f *ssa.Function) bool { return f.Parent() == nil && hasCall(f, onWG(isWGDone), true) })
+	// WaitGroup operations on pe.waitGroup are recognised by what a call does, not by how the
+	// function value it runs is written: a literal, a method value (pe.waitGroup.Wait,
+	// pe.addExecution), a variable holding one; function values handed to the goroutine
+	// starter do not run as part of the call.
+	wg := &c16WG{wgField: fWG, inPkg: inPkg, memo: map[string]int{}, async: func(c ssa.CallInstruction) bool {
+		return core.Short(core.CalleeName(c)) == "lib/threading.GoSafe"
+	}}
+	// enter-only functions: running them counts an execution in (Add) and never out (Done);
+	// every call running one is an enter site of its caller. doneFns: the converse.
+	enterFns := roleSet(func(f *ssa.Function) bool { return wg.fn(f, "Add", true) && !wg.fn(f, "Done", true) })
+	doneFns := roleSet(func(f *ssa.Function) bool {
+		return f.Parent() == nil && f.Synthetic == "" && wg.fn(f, "Done", false) && !wg.fn(f, "Add", true)
+	})
 	execFns := roleSet(func(f *ssa.Function) bool {
 		return hasCall(f, isExecute, false) && f.Signature.Recv() != nil && strings.Contains(f.Signature.Recv().Type().String(), "PeriodicalExecutor")
 	})
@@ -161,7 +170,9 @@ func c16(r *core.Run) {
 	plain := func(m func(ssa.Instruction) bool) func(ssa.Instruction) bool {
 		return func(in ssa.Instruction) bool { _, ok := in.(*ssa.Call); return ok && m(in) }
 	}
-	isEnter, isExec, isAddFn := plain(callTo(enterFns)), plain(callTo(execFns)), plain(callTo(addFns))
+	isExec, isAddFn := plain(callTo(execFns)), plain(callTo(addFns))
+	isEnter := plain(func(in ssa.Instruction) bool { return wg.at(in, "Add", true) && !wg.at(in, "Done", true) })
+	isDone := func(in ssa.Instruction) bool { return wg.at(in, "Done", true) && !wg.at(in, "Add", true) }
 	var flusher *ssa.Function
 	var flSel *ssa.Select
 	flK := -1
@@ -557,6 +568,15 @@ func c16(r *core.Run) {
 			if len(ens)+len(exs) == 0 {
 				continue
 			}
+			if enterFns[f] && len(exs) == 0 {
+				// an enter-only function: what runs it is an enter site of the function it runs in,
+				// so it must be run by plain synchronous calls only
+				o.Site(1, core.FuncName(f))
+				if in := c16UnaccountedUse(funcs, f); in != nil {
+					o.Unres("%s: %s counts an execution in and is used here other than by a plain call: pairing not understood", p.InstrPos(in), core.FuncName(f))
+				}
+				continue
+			}
 			n += len(exs)
 			o.Site(len(ens)+len(exs), core.FuncName(f))
 			if w := core.Precedes(f, isEnter, isExec); w != nil {
@@ -576,13 +596,11 @@ func c16(r *core.Run) {
 		if n < 2 {
 			o.Unres("only %d executeTasks call sites found (Flush and flusher expected)", n)
 		}
-		for f := range enterFns {
-			for _, x := range core.WithAnon(f) {
-				for _, a := range core.Instrs(x, onWG(isWGAdd)) {
-					o.Site(1)
-					if d, ok := core.ConstInt(core.AsCall(a).Common().Args[1]); !ok || d != 1 {
-						o.Fail(p.InstrPos(a), "enterExecution adds %s to the WaitGroup", core.Describe(core.AsCall(a).Common().Args[1]))
-					}
+		for _, f := range funcs {
+			for _, a := range core.Instrs(f, onWG(isWGAdd)) {
+				o.Site(1)
+				if d, ok := core.ConstInt(core.AsCall(a).Common().Args[1]); !ok || d != 1 {
+					o.Fail(p.InstrPos(a), "enterExecution adds %s to the WaitGroup", core.Describe(core.AsCall(a).Common().Args[1]))
 				}
 			}
 		}
@@ -597,7 +615,7 @@ func c16(r *core.Run) {
 			if !ok {
 				return false
 			}
-			return callTo(doneFns)(d) || onWG(isWGDone)(d)
+			return isDone(d)
 		}
 		for f := range execFns {
 			o.Site(len(core.Instrs(f, isExecute)), core.FuncName(f))
@@ -608,7 +626,7 @@ func c16(r *core.Run) {
 			if w := core.Precedes(f, isDeferDone, core.Or(isExecute, core.IsReturn)); w != nil {
 				o.Fail(p.InstrPos(w), "the batch can be executed / the function can return before Done is deferred")
 			}
-			if w := core.AtMostOnce(f, core.Or(isDeferDone, plain(callTo(doneFns)), plain(onWG(isWGDone)))); w != nil {
+			if w := core.AtMostOnce(f, core.Or(isDeferDone, plain(isDone))); w != nil {
 				o.Fail(p.InstrPos(w), "WaitGroup.Done can run twice for one execution")
 			}
 			for _, c := range core.Instrs(f, isExecute) {
@@ -618,12 +636,13 @@ func c16(r *core.Run) {
 			}
 		}
 		for f := range doneFns {
-			ds := core.Instrs(f, onWG(isWGDone))
+			doesDone := func(in ssa.Instruction) bool { return wg.at(in, "Done", false) }
+			ds := core.Instrs(f, doesDone)
 			o.Site(len(ds), core.FuncName(f))
-			if w := core.MustPass(core.Entry(f), onWG(isWGDone), core.IsExit); w != nil {
+			if w := core.MustPass(core.Entry(f), doesDone, core.IsExit); w != nil {
 				o.Fail(p.InstrPos(w), "%s can return without WaitGroup.Done", core.FuncName(f))
 			}
-			if w := core.AtMostOnce(f, onWG(isWGDone)); w != nil {
+			if w := core.AtMostOnce(f, doesDone); w != nil {
 				o.Fail(p.InstrPos(w), "%s calls WaitGroup.Done twice", core.FuncName(f))
 			}
 		}
@@ -667,19 +686,10 @@ func c16(r *core.Run) {
 			return
 		}
 		isWaitSite := func(in ssa.Instruction) bool {
-			c, ok := in.(*ssa.Call)
-			if !ok {
-				return false
-			}
-			if onWG(isWGWait)(c) {
-				return true
-			}
-			for _, a := range c.Call.Args {
-				if mc, ok := a.(*ssa.MakeClosure); ok && len(core.Instrs(mc.Fn.(*ssa.Function), onWG(isWGWait))) > 0 {
-					return true
-				}
-			}
-			return false
+			// a call that waits on pe.waitGroup: directly, or through the function value it runs
+			// (a literal, the method value pe.waitGroup.Wait) or a function of the package
+			_, ok := in.(*ssa.Call)
+			return ok && wg.at(in, "Wait", true)
 		}
 		ws := core.Instrs(f, isWaitSite)
 		o.Site(len(ws), core.FuncName(f))
@@ -714,8 +724,21 @@ func c16(r *core.Run) {
 			c, ok := v.(*ssa.Call)
 			return ok && callTo(quitFns)(c)
 		}
-		if w := core.Requires(flusher, core.IsReturn, core.BoolVal(isQuitRes)); w != nil {
-			o.Fail(p.InstrPos(w), "the flusher returns although the quit test did not clear `guarded`: no flusher is ever started again")
+		// evaluated per path: a quit flag set from the quit test's result and tested later
+		// (`quit = true … if quit { return }`) is the same path as the `return` in place
+		quitTrue, _ := core.EdgesOf(flusher, core.BoolVal(isQuitRes))
+		var early ssa.Instruction
+		if !c16Paths(c16PathQ{Fn: flusher, From: []core.At{core.Entry(flusher)}, Cut: core.CutSet(quitTrue), Visit: func(in ssa.Instruction, _ *c16PathState) bool {
+			if core.IsReturn(in) {
+				early = in
+				return true
+			}
+			return false
+		}}) {
+			o.Unres("%s: too many paths to decide when the flusher returns", core.FuncName(flusher))
+		}
+		if early != nil {
+			o.Fail(p.InstrPos(early), "the flusher returns although the quit test did not clear `guarded`: no flusher is ever started again")
 		}
 		// started asynchronously
 		if !o.Need(len(flUses) > 0, "the function that starts the flusher") {
@@ -767,27 +790,34 @@ func c16(r *core.Run) {
 					}
 				}
 			}
-			// result true only after the clear
-			for _, ret := range core.Returns(f) {
+			// the result per path: true exactly on the paths that cleared `guarded` (the result
+			// may be a constant, a φ of constants, or a result variable assigned on the way)
+			if len(clears) == 0 {
+				continue
+			}
+			complete := c16Paths(c16PathQ{Fn: f, From: []core.At{core.Entry(f)}, Mark: isClear, Visit: func(in ssa.Instruction, st *c16PathState) bool {
+				ret, ok := in.(*ssa.Return)
+				if !ok || in.Block() == f.Recover {
+					return false
+				}
 				if len(ret.Results) != 1 {
 					o.Unres("%s: unexpected result shape", core.FuncName(f))
-					continue
+					return true
 				}
-				checkTrueOnlyAfter(o, p, ret, core.Result(ret, 0), ret.Block(), clears, 0)
-			}
-			// and after the clear the result is true
-			for _, c := range clears {
-				for _, ret := range core.Returns(f) {
-					if _, ok := core.Reach(core.Q{From: []core.At{core.After(c)}, Target: core.Is(ret)}); !ok {
-						continue
-					}
-					if ph, isPhi := core.Result(ret, 0).(*ssa.Phi); isPhi && ph.Block() == ret.Block() {
-						continue // per-edge values were checked above; the clearing edge carries its own value
-					}
-					if core.Describe(core.Result(ret, 0)) == "const:false" {
-						o.Fail(p.InstrPos(ret), "`guarded` cleared but the flusher is told to continue: a second flusher is started next to it")
-					}
+				val, known := st.Val(ret.Results[0])
+				switch {
+				case !known:
+					o.Unres("%s: quit result %s is not a constant per path: shape not understood", p.InstrPos(ret), core.Describe(ret.Results[0]))
+					return true
+				case val && !st.Marked:
+					o.Fail(p.InstrPos(ret), "the quit test reports true on a path that did not clear `guarded`: the flusher retires while `guarded` stays set and no flusher is ever started again")
+				case !val && st.Marked:
+					o.Fail(p.InstrPos(ret), "`guarded` cleared but the flusher is told to continue: a second flusher is started next to it")
 				}
+				return false
+			}})
+			if !complete {
+				o.Unres("%s: too many paths to classify the quit result", core.FuncName(f))
 			}
 		}
 	})
@@ -1035,64 +1065,6 @@ func isFreshStore(st *ssa.Store) bool {
 	}
 	_, isAlloc := fa.X.(*ssa.Alloc)
 	return isAlloc
-}
-
-// checkTrueOnlyAfter walks the φ-web of a boolean result: every incoming value
-// that may be true must flow from a block dominated by (or containing, before
-// its end) one of the `after` instructions.
-func checkTrueOnlyAfter(o *core.O, p *core.Prog, ret *ssa.Return, v ssa.Value, from *ssa.BasicBlock, after []ssa.Instruction, depth int) {
-	if depth > 6 {
-		o.Unres("%s: result too deep to classify", p.InstrPos(ret))
-		return
-	}
-	if core.Describe(v) == "const:false" || isZeroLoad(v) {
-		return
-	}
-	if ph, ok := v.(*ssa.Phi); ok {
-		for i, e := range ph.Edges {
-			checkTrueOnlyAfter(o, p, ret, e, ph.Block().Preds[i], after, depth+1)
-		}
-		return
-	}
-	if core.Describe(v) != "const:true" {
-		o.Unres("%s: quit result %s is not a constant per path: shape not understood", p.InstrPos(ret), core.Describe(v))
-		return
-	}
-	for _, a := range after {
-		if a.Block() == from || a.Block().Dominates(from) {
-			return
-		}
-	}
-	o.Fail(p.InstrPos(ret), "the quit test reports true on a path that did not clear `guarded`: the flusher retires while `guarded` stays set and no flusher is ever started again")
-}
-
-// isZeroLoad: v loads a local variable that no store can have reached (the
-// zero value of a named result on an early `return`).
-func isZeroLoad(v ssa.Value) bool {
-	u, ok := v.(*ssa.UnOp)
-	if !ok || u.Op != token.MUL {
-		return false
-	}
-	al, ok := u.X.(*ssa.Alloc)
-	if !ok {
-		return false
-	}
-	for _, r := range *al.Referrers() {
-		switch x := r.(type) {
-		case *ssa.Store:
-			if x.Addr != ssa.Value(al) {
-				return false
-			}
-			if _, reaches := core.Reach(core.Q{From: []core.At{core.After(x)}, Target: core.Is(u)}); reaches {
-				return false
-			}
-		case *ssa.UnOp:
-		case *ssa.DebugRef:
-		default:
-			return false // address escapes
-		}
-	}
-	return true
 }
 
 // balancedModuloDefers re-examines a function the lock engine reported as
